@@ -921,6 +921,7 @@ pub fn run(args: &Args) -> i32 {
         None => ev.inconclusive("could not install the C-ABI logger"),
     }
     port_states(&rt, &mut ev);
+    ev.sample(json!({"client_scenario": "rodbus_client_channel_read_holding_registers(unit, range, timeout) against a scripted peer answering [genuine, exception 0x01..0xFF, bad response, silence, ...]; the same list through rodbus::client::Channel", "server_scenario": "WriteHandler callbacks returning {success | exception enum | Unknown+raw code} for FC05/06/15/16 observed by a raw TCP client"}));
     unsafe { ffi::rodbus_runtime_destroy(rt.0) };
     let meta = Meta {
         property_id: "C18",
